@@ -571,5 +571,6 @@ func TestC14Codec(t *testing.T) {
 	if nSingles < 50 || nPairs < 1000 {
 		core.HarnessError("vacuous lattice")
 	}
+	os.RemoveAll(dir) // Finish exits the process; deferred calls do not run
 	rep.Finish()
 }
